@@ -113,18 +113,18 @@ Definition enc_dense_text (d : dense_text) : sx :=
   | DList sh es => L [I 3; sLZ sh; L (map sT es)]
   end.
 
-Definition dense_case (o : otab) (e : ety) (shape payloads : list Z) : sx :=
+Definition dense_case (hexfix splatfix : bool) (o : otab) (e : ety) (shape payloads : list Z) : sx :=
   let pk := t_pack o in let up := t_unpack o in
   let f5 := zlookup_t (o_5e o) in let f9 := zlookup_t (o_9g o) in
   let f17 := zlookup_t (o_17g o) in let fr := zlookup_t (o_repr o) in
   let sc := t_scan o in let oi := t_ofint o in
-  L [enc_res enc_dense_text (print_dense pk up f5 f9 f17 fr sc e shape payloads);
-     enc_res sLZ (dense_roundtrip pk up f5 f9 f17 fr sc oi e shape payloads)].
+  L [enc_res enc_dense_text (print_dense pk up f5 f9 f17 fr sc splatfix e shape payloads);
+     enc_res sLZ (dense_roundtrip pk up f5 f9 f17 fr sc oi hexfix splatfix e shape payloads)].
 
-Definition densearray_case (o : otab) (e : ety) (payloads : list Z) : sx :=
+Definition densearray_case (hexfix : bool) (o : otab) (e : ety) (payloads : list Z) : sx :=
   let pk := t_pack o in let up := t_unpack o in
   let f5 := zlookup_t (o_5e o) in let f9 := zlookup_t (o_9g o) in
   let f17 := zlookup_t (o_17g o) in let fr := zlookup_t (o_repr o) in
   let sc := t_scan o in
   L [L (map sT (print_densearray pk up f5 f9 f17 fr sc e payloads));
-     enc_res sLZ (densearray_roundtrip pk up f5 f9 f17 fr sc e payloads)].
+     enc_res sLZ (densearray_roundtrip pk up f5 f9 f17 fr sc hexfix e payloads)].
